@@ -1064,7 +1064,9 @@ class Analyzer(Analysis):
                             self.reads.append({"bi": bi, "sym": "rd%d" % bi, "root": roots_[0][0], "off": base_, "width": len(names_),
                                                "order": {"from_be_bytes": "BE", "from_le_bytes": "LE", "from_ne_bytes": "NE"}[m_.group(1)],
                                                "signed": dest_ty["sg"], "sp": sp})
-                            self.elems = [e_ for e_ in self.elems if e_["sym"] not in names_]
+                            for e_ in self.elems:
+                                if e_["sym"] in names_:
+                                    e_["covered"] = "rd%d" % bi      # part of this multi-byte read (kept for rules that ask for it)
                         self.write(st, dest_key, ("lin", s_))
                         if self.final:
                             self.events.append(ev)
